@@ -217,6 +217,7 @@ def run(ctx):
     from . import system_common as sysc
     sessions, sverdict = sysc.run_sessions(ctx, 120 if ctx.quick else 3000, ctx.seed + 5, file_bias=True)
     sysc.judge(ctx, "C05", sessions, sverdict, sysc.MUTATE_OPS, "mutate inside a session")
+    sysc.mc_for(ctx, "C05")          # MC_System focus "files": every transition (write / open by name / mutate) replayed on the library
     # the same path re-opened on one filesystem object after its bytes changed: detection follows the current bytes
     drecs = []
     for out in core.pmap(detect_job, [(10 ** 6 + 10 * i, ctx.seed * 37 + i) for i in range(150 if ctx.quick else 4000)], chunk=20):
@@ -292,6 +293,7 @@ def run_c06(ctx):
     from . import system_common as sysc
     sessions, sverdict = sysc.run_sessions(ctx, 120 if ctx.quick else 3000, ctx.seed + 6, file_bias=True)
     sysc.judge(ctx, "C06", sessions, sverdict, sysc.FAILED_MUTATE_OPS, "a cancelled / failing mutate inside a session")
+    sysc.mc_for(ctx, "C06")
     # lenient error handlers handed through mutate(): whenever the save then fails, the input must be intact
     eres = core.pmap(lc.run_errors_scenario, lc.errors_jobs(), chunk=8)
     for r in eres:
